@@ -472,6 +472,16 @@ pub fn run(ctx: &mut Ctx) {
       ctx.distinct_key(hash_words(&[nprog + 2 + lead, 0xb10e]));
     }
   }
+  // and every relative-jump displacement, taken (JR, JR Z, JR NC with Z set and C clear):
+  // rule 4 prices each of them from the table, d = 0 included
+  if ctx.mine(nprog + 12) {
+    let (image, description) = crate::gen::pressure::jr_ladder_image();
+    let prog = program::Program { image, cart_type: 0x01, banks: 16, features: Default::default(), description };
+    for &st in [Stepper::Update, Stepper::RunCodeBlock].iter() {
+      check_program(ctx, &prog, nprog + 12, st, 1700, &mut t);
+    }
+    ctx.distinct_key(hash_words(&[nprog + 12, 0xb110]));
+  }
   // and dispatches that their own push cancels (SP = 0x0000: the pushed high byte lands on
   // IE; SP = 0xFF10: on IF): they cost five machine cycles like any other, and the devices
   // must receive those twenty clocks
